@@ -71,7 +71,12 @@ Section PyVal.
     | RInt z => Some (PInt z)
     | RUint z => if (0 <=? z)%Z then Some (PInt z) else None
     | RBig z => Some (PInt z)
-    | RFloat f => if (1 <=? e_proto c)%Z && (f <? 2 ^ 64) then Some (PFloat f) else None
+    | RFloat f =>
+        if (1 <=? e_proto c)%Z then (if f <? 2 ^ 64 then Some (PFloat f) else None)
+        else match float_text (e_fmtg c f) with        (* protocol 0: the %g text must mean f *)
+             | Some b => if b =? f then Some (PFloat f) else None
+             | None => None
+             end
     | RStr SPlain s | RStr SNamed s => pv_string s
     | RStr SUnicode s => pv_unicode s
     | RStr SByteString s => pv_bytestring s
